@@ -11,7 +11,7 @@ RULE = ('one evaluation = one simulated driver life (boot, plan of external even
         'each task kind and instruction-level injected errors. non-trivial = the run executed at least one fault (bomb, injected '
         'error, disconnect, failing master callback); distinct = distinct abstract traces (sequence of record kinds and fault '
         'sites with payloads, names and times dropped).')
-RULE += (' Later additions: the wall clock set back between ticks in a seventh of the runs (timers judged on a monotonic clock); scenario class flood: one user types ahead 4-40 failing commands while the timer ticks, and a tick cycle whose only failing task is a user command still serves the heart beat of a healthy object.')
+RULE += (' Later additions: the wall clock set back between ticks in a seventh of the runs (timers judged on a monotonic clock); scenario class flood: one user types ahead 4-40 failing commands while the timer ticks, and a tick cycle whose only failing task is a user command still serves the heart beat of a healthy object; accept() failing with EMFILE or EINTR for a few calls while a connection waits in the queue; reads interrupted by EINTR.')
 COMPONENTS = {'real': ['src/backend.c', 'src/comm.c', 'src/simulate.c', 'src/error_context.c', 'src/interpret.c', 'lib/efuns', 'lib/lpc',
                        'lib/async/async_runtime_epoll.c', 'lib/async/async_queue.c'],
               'stub': ['lib/port/timer.cpp (timer thread = plan tick steps calling the real callback)',
@@ -154,6 +154,9 @@ def gen(rng, tier, i):
     def new_conn():
         cid = next_cid[0]; next_cid[0] += 1
         conns[cid] = {'alive': True, 'partial': False}
+        # (now and then the process is out of descriptors, or accept() is interrupted, when the connection arrives: it waits in
+        # the queue and everybody else is served meanwhile)
+        if rng.random() < 0.04: p.cycle('acceptfail %d%s' % (rng.randint(1, 5), rng.choice(('', ' eintr'))))
         p.cycle(connect(0, cid))
         if rng.random() < 0.8:
             p.cycle(line(cid, 'do name u%d' % cid))
